@@ -331,3 +331,143 @@ def project_value(x, kind, dtype=None):
 def project_tensor(t, kind, dtype=None):
     """Observed dense tensor -> flat row-major list of intervals on the exact carrier."""
     return [project_value(x, kind, dtype) for x in t.reshape(-1).tolist()]
+
+
+# --------------------------------------------------------------------------
+# recursive grammars on the dyadic grid, by REVERSE CONSTRUCTION (generation aid: the candidate
+# least fixed point `cert` is only a hint -- spec/Semantics.tla (CertExact, CertQ) proves it)
+FXS = 1024
+
+
+def _assts(ag, r, ea):
+    import itertools
+    doms = [range(ag['nls'][l]) for l in r['nodes']]
+    for a in itertools.product(*doms):
+        if all(a[r['ext'][k] - 1] == ea[k] for k in range(len(r['ext']))):
+            yield a
+
+
+def _flat(shape, idx):
+    f = 0
+    for s, x in zip(shape, idx):
+        f = f * s + x
+    return f
+
+
+def rule_val_frac(ag, x, r, ea, hole=None):
+    """sum over assignments of the product of the edges (Fractions); edge `hole` replaced by 1"""
+    from fractions import Fraction
+    tot = Fraction(0)
+    for a in _assts(ag, r, ea):
+        p = Fraction(1)
+        for k, e in enumerate(r['edges']):
+            if k == hole:
+                continue
+            idx = [a[j - 1] for j in e['att']]
+            if ag['els'][e['lab']]['t']:
+                p *= Fraction(ag['wfx'][e['lab']][_flat(shape_of(ag, e['lab']), idx)], FXS)
+            else:
+                p *= x[e['lab']][_flat(shape_of(ag, e['lab']), idx)]
+        tot += p
+    return tot
+
+
+def gen_fx_recursive(rng, linear=False, max_q=None):
+    """A recursive grammar with quarter-valued weights whose least fixed point is `cert` by
+    construction (each nonterminal gets a constant rule that makes cert a fixed point)."""
+    from fractions import Fraction
+    import itertools
+    for _ in range(400):
+        nls = {'T': rng.choice([1, 2, 2])}
+        nnt = rng.choice([1, 2, 2])
+        ntn = ['S', 'X'][:nnt]
+        els = {}
+        for i, n in enumerate(ntn):
+            els[n] = {'t': False, 'type': ['T'] * (rng.choice([0, 0, 1]) if i == 0 else rng.choice([0, 1]))}
+        els['a'] = {'t': True, 'type': ['T']}
+        els['b'] = {'t': True, 'type': []}
+        wfx = {'a': [rng.choice([256, 512, 512, 768]) for _ in range(nls['T'])], 'b': [rng.choice([256, 512])]}
+        rules = []
+        for X in ntn:
+            typ = els[X]['type']
+            for _r in range(rng.choice([1, 1, 2])):
+                nodes = list(typ) + ['T'] * rng.choice([0, 1])
+                ext = list(range(1, len(typ) + 1))
+                edges = []
+                nrec = rng.choice([1]) if linear else rng.choice([1, 2, 2])
+                for _k in range(nrec):
+                    Y = rng.choice(ntn)
+                    att = []
+                    ok = True
+                    for _l in els[Y]['type']:
+                        if not nodes:
+                            ok = False
+                            break
+                        att.append(rng.randrange(len(nodes)) + 1)
+                    if ok:
+                        edges.append({'lab': Y, 'att': att})
+                if rng.random() < 0.7:
+                    edges.append({'lab': 'b', 'att': []})
+                if nodes and rng.random() < 0.7:
+                    edges.append({'lab': 'a', 'att': [rng.randrange(len(nodes)) + 1]})
+                rng.shuffle(edges)
+                rules.append({'lhs': X, 'nodes': nodes, 'edges': edges, 'ext': ext})
+        ag = {'nls': nls, 'els': els, 'elorder': list(els), 'start': 'S', 'rules': rules, 'wfx': wfx}
+        # target fixed point on the quarter grid
+        x = {X: [Fraction(rng.choice([1, 2, 2, 3, 4, 6]), 4) for _ in range(numel(shape_of(ag, X)))] for X in ntn}
+        cert, ok = {}, True
+        for X in ntn:
+            sh = shape_of(ag, X)
+            cname = 'c' + X
+            els[cname] = {'t': True, 'type': list(els[X]['type'])}
+            cw = []
+            for flat, ea in enumerate(itertools.product(*[range(s) for s in sh])):
+                rest = sum((rule_val_frac(ag, x, r, ea) for r in rules if r['lhs'] == X), Fraction(0))
+                c = x[X][flat] - rest
+                if c < 0 or (c * FXS).denominator != 1:
+                    ok = False
+                    break
+                cw.append(int(c * FXS))
+            if not ok:
+                break
+            wfx[cname] = cw
+            nodes = list(els[X]['type'])
+            rules.append({'lhs': X, 'nodes': nodes, 'edges': [{'lab': cname, 'att': list(range(1, len(nodes) + 1))}], 'ext': list(range(1, len(nodes) + 1))})
+            cert[X] = [int(v * FXS) for v in x[X]]
+        if not ok:
+            continue
+        ag['elorder'] = list(els)
+        # contraction: largest Jacobian row sum at x
+        q = Fraction(0)
+        for X in ntn:
+            for ea in itertools.product(*[range(s) for s in shape_of(ag, X)]):
+                row = Fraction(0)
+                for r in rules:
+                    if r['lhs'] != X:
+                        continue
+                    for k, e in enumerate(r['edges']):
+                        if not els[e['lab']]['t']:
+                            row += rule_val_frac(ag, x, r, ea, hole=k)
+                q = max(q, row)
+        if max_q is not None and q >= max_q:
+            continue
+        ag['cert'] = cert
+        ag['q_hint'] = float(q)
+        ag['w'] = {t: [0] * len(v) for t, v in wfx.items()}
+        ag['wmp'] = {t: [0] * len(v) for t, v in wfx.items()}
+        rng.shuffle(ag['rules'])
+        return ag
+    raise RuntimeError('gen_fx_recursive: no instance found')
+
+
+def build_fgg_fx(ag, kind, dtype):
+    """real FGG for a grid grammar: weights wfx/1024 (real) or their logarithms (log)"""
+    import torch
+    a2 = dict(ag)
+    g, info = build_fgg(dict(ag, w={t: [0] * len(v) for t, v in ag['wfx'].items()}), 'real', dtype)
+    for t, vals in ag['wfx'].items():
+        fl = [v / FXS for v in vals]
+        if kind == 'log':
+            fl = [math.log(v) if v > 0 else -math.inf for v in fl]
+        g.factors[t].weights = torch.tensor(fl, dtype=dtype).reshape(shape_of(ag, t))
+    return g, info
